@@ -4,14 +4,17 @@ package c16ops
 
 import (
 	"bytes"
-	"io"
 	"crypto/sha1"
 	"fmt"
+	"io"
+	"strings"
+	"sync"
 
 	"golang.org/x/text/language"
 
 	"seehuhn.de/go/geom/matrix"
 	"seehuhn.de/go/sfnt"
+	"seehuhn.de/go/sfnt/cff"
 	"seehuhn.de/go/sfnt/glyph"
 	"seehuhn.de/go/sfnt/opentype/coverage"
 	"seehuhn.de/go/sfnt/opentype/gtab"
@@ -134,10 +137,54 @@ var WriterOps = []WriterOp{
 }
 
 // FontNames names the shared fonts.
-var FontNames = []string{"glyf", "cff", "cid"}
+// "cid-read" is a CID-keyed font as sfnt.Read returns it (24 glyphs, three font dictionaries in runs, so
+// that FDSelect is stored in its range format): structures and closures made by the reader, not by the test.
+var FontNames = []string{"glyf", "cff", "cid", "cid-read"}
+
+var (
+	cidReadOnce sync.Once
+	cidReadFile []byte
+)
+
+func cidReadFont() *sfnt.Font {
+	cidReadOnce.Do(func() {
+		var f *sfnt.Font
+		_, pm := explore.Exec(func(c *explore.Ctx) { f, _ = gen.Font(c, gen.FontOpts{NoMeta: true, Compact: true}) }, []int{2, 2, 1, 1, 0, 1, 0}, false)
+		if pm != "" {
+			panic(pm)
+		}
+		ol := f.Outlines.(*cff.Outlines)
+		o := *ol
+		for len(o.Private) < 3 {
+			o.Private = append(o.Private, o.Private[0])
+			o.FontMatrices = append(o.FontMatrices, o.FontMatrices[0])
+		}
+		for i := len(o.Glyphs); i < 24; i++ {
+			g := *ol.Glyphs[1+i%5]
+			g.Width = float64(400 + i)
+			o.Glyphs = append(o.Glyphs, &g)
+			o.GIDToCID = append(o.GIDToCID, o.GIDToCID[len(o.GIDToCID)-1]+1)
+		}
+		o.FDSelect = func(g glyph.ID) int { return int(g) / 8 }
+		f.Outlines = &o
+		buf := &bytes.Buffer{}
+		if _, err := f.Write(buf); err != nil {
+			panic(err)
+		}
+		cidReadFile = buf.Bytes()
+	})
+	f, err := sfnt.Read(bytes.NewReader(cidReadFile))
+	if err != nil {
+		panic(err)
+	}
+	return f
+}
 
 // Font builds the k-th shared font (6 glyphs, cmap, ligature GSUB, pair GPOS, GDEF classes for glyf).
 func Font(k int) *sfnt.Font {
+	if k == 3 {
+		return cidReadFont()
+	}
 	var f *sfnt.Font
 	// kind, glyph count 6, shape rotation 1, names/encoding/fd choice, cmap format 4, layout combination
 	choices := [][]int{{0, 2, 1, 1, 1, 2}, {1, 2, 1, 1, 1, 2}, {2, 2, 1, 1, 0, 1, 2}}[k]
@@ -161,6 +208,7 @@ func Font(k int) *sfnt.Font {
 
 // Applicable returns the operations that apply to a font kind.
 func Applicable(kind string) []Op {
+	kind = strings.TrimSuffix(kind, "-read")
 	var out []Op
 	for _, o := range Ops {
 		if o.Only == "" || o.Only == kind || (o.Only == "cff" && kind == "cid") {
